@@ -1176,6 +1176,54 @@ impl Runner {
                     }
                 }
             }
+            ["dumpwstep"] => {
+                // a dump of the live store during which the parked worker performs its next step
+                // (released from inside the dump's callback, at the first record of the newest chunk)
+                let Some(s) = self.store.as_ref() else { return self.emit("dumpw none") };
+                use raft_log::DumpApi;
+                use raft_log::codeq::OffsetSize;
+                let newest = s.stat().open_chunk.chunk_id.0;
+                let timeout = self.timeout;
+                let mut lines = vec![];
+                let mut stepped = false;
+                let r = catch_unwind(AssertUnwindSafe(|| {
+                    s.dump().write_with(|chunk_id, i, res| {
+                        if chunk_id.0 == newest && !stepped {
+                            stepped = true;
+                            let _ = gate::release(Outcome::Ok);
+                            let _ = gate::wait_settled(timeout);
+                        }
+                        match res {
+                            Ok((seg, rec)) => lines.push(format!(
+                                "rec {} {} {},{} {}",
+                                chunk_id.0,
+                                i,
+                                seg.offset().0,
+                                seg.size().0,
+                                show_record(&rec)
+                            )),
+                            Err(e) => lines.push(format!("rec {} {} err {}", chunk_id.0, i, err_kind(&e))),
+                        }
+                        Ok(())
+                    })
+                }));
+                if !stepped {
+                    let _ = gate::release(Outcome::Ok);
+                    let _ = gate::wait_settled(timeout);
+                }
+                let st = self.settle();
+                for l in lines {
+                    self.emit(&l);
+                }
+                match r {
+                    Ok(Ok(())) => self.emit(&format!("dumpw end wst {}", st)),
+                    Ok(Err(e)) => self.emit(&format!("dumpw err {}", err_kind(&e))),
+                    Err(_) => {
+                        self.emit("dumpw panic");
+                        self.stopped = true;
+                    }
+                }
+            }
             ["dumpw"] => {
                 let Some(s) = self.store.as_ref() else { return self.emit("dumpw none") };
                 use raft_log::DumpApi;
